@@ -65,17 +65,25 @@ def semantic_oracle(ctx, sc):
                 ctx.violation("compound:contains_wrong", "nested contains_behavior disagrees with exact evaluation",
                               {"alternatives": [[cf.jsonable_term(t) for t in a] for a in alts], "behavior": [(k, str(x)) for k, x in b], "answer": v})
     # intersection = pairwise intersections, only empty ones dropped
-    for p, q in (("a1", "a2"), ("g1", "g2")):
+    # (force_empty_intersection=True is what IoContractCompound.merge uses for the assumptions)
+    for p, q, force in (("a1", "a2", False), ("a1", "a2", True), ("a2", "a1", True), ("g1", "g2", False)):
         if p not in nests or q not in nests:
             continue
-        kind, v, _ = pp.observe(lambda: nests[p].intersect(nests[q], False))
+        kind, v, _ = pp.observe(lambda: nests[p].intersect(nests[q], force))
+        pairs = [x + [t for t in y if t not in x] for x in sc[p] for y in sc[q]]
+        live = [pr for pr in pairs if feasible(pr)]
+        if kind == "err" and v[0] == 2 and force:
+            if not any(feasible(live[i] + live[j]) for i in range(len(live)) for j in range(i + 1, len(live))):
+                ctx.violation("compound:disjoint_rejected", "an intersection with pairwise disjoint alternatives was rejected with ValueError",
+                              {"left": [[cf.jsonable_term(t) for t in a] for a in sc[p]], "right": [[cf.jsonable_term(t) for t in a] for a in sc[q]]})
+            continue
         if kind != "ok":
             continue
         res = cc.nested_of(v)
-        pairs = [x + [t for t in y if t not in x] for x in sc[p] for y in sc[q]]
-        live = [pr for pr in pairs if feasible(pr)]
         info = {"left": [[cf.jsonable_term(t) for t in a] for a in sc[p]], "right": [[cf.jsonable_term(t) for t in a] for a in sc[q]],
-                "result": [[cf.jsonable_term(t) for t in a] for a in res]}
+                "force_empty_intersection": force, "result": [[cf.jsonable_term(t) for t in a] for a in res]}
+        if force and any(feasible(res[i] + res[j]) for i in range(len(res)) for j in range(i + 1, len(res))):
+            ctx.violation("compound:overlap_accepted", "overlapping alternatives accepted in an intersection built with the disjointness check", info)
         for pr in live:
             if not any(equivalent(pr, r) for r in res):
                 ctx.violation("compound:intersection_lost", "a non-empty pairwise intersection is missing from the result", info)
